@@ -31,6 +31,7 @@ type c06Params struct {
 	Client c06Limits `json:"client"`
 	Server c06Limits `json:"server"`
 	Body   int       `json:"body"` // payload bytes of the request and of the response
+	Secure bool      `json:"sign_and_encrypt"` // Basic256Sha256/SignAndEncrypt instead of None: full chunks fill whole cipher blocks
 }
 
 type c06Obs struct {
@@ -47,7 +48,11 @@ func c06Body(p c06Params) func() {
 		obs := &c06Obs{}
 		c06obs = obs
 		ctx := context.Background()
-		srv := &echoServer{cfg: noneCfg(3600000, 0), ack: &uacp.Acknowledge{ReceiveBufSize: p.Server.Recv, SendBufSize: p.Server.Send, MaxMessageSize: p.Server.MaxMsg, MaxChunkCount: p.Server.MaxChk}}
+		ccfg, scfg := noneCfg(3600000, 5*time.Second), noneCfg(3600000, 0)
+		if p.Secure {
+			ccfg, scfg = securedCfgs(ua.SecurityPolicyURIBasic256Sha256, ua.MessageSecurityModeSignAndEncrypt, 3600000, 5*time.Second)
+		}
+		srv := &echoServer{cfg: scfg, ack: &uacp.Acknowledge{ReceiveBufSize: p.Server.Recv, SendBufSize: p.Server.Send, MaxMessageSize: p.Server.MaxMsg, MaxChunkCount: p.Server.MaxChk}}
 		srv.respond = func(s *echoServer, ctx context.Context, msg *uasc.MessageBody) {
 			wr, ok := msg.Request().(*ua.WriteRequest)
 			n := 0
@@ -75,7 +80,7 @@ func c06Body(p c06Params) func() {
 			obs.done = true
 			return
 		}
-		sc, err := uasc.NewSecureChannel(url, conn, noneCfg(3600000, 5*time.Second), make(chan error, 8))
+		sc, err := uasc.NewSecureChannel(url, conn, ccfg, make(chan error, 8))
 		if err != nil {
 			panic(err)
 		}
@@ -118,6 +123,9 @@ func c06Check(p c06Params) func(x *vrt.Exec) (string, string, string) {
 	}
 	return func(x *vrt.Exec) (string, string, string) {
 		tag := fmt.Sprintf("c06/client.send%sserver.recv/server.send%sclient.recv", rel(p.Client.Send, p.Server.Recv), rel(p.Server.Send, p.Client.Recv))
+		if p.Secure {
+			tag += "/SignAndEncrypt"
+		}
 		if out, sig, detail, failed := fail(x); failed {
 			if sig != "" {
 				sig = tag + "/" + sig
@@ -193,6 +201,9 @@ func c06Check(p c06Params) func(x *vrt.Exec) (string, string, string) {
 			if limit > 0 && uint32(f.size) > limit {
 				return "chunk-too-large", tag + "/" + f.dir + "/chunk-larger-than-the-receive-buffer-the-peer-advertised", fmt.Sprintf("a %s chunk of %d bytes, the peer advertised %d; %s", f.dir, f.size, limit, detail)
 			}
+			if p.Secure {
+				continue // the request id is inside the encrypted region: per-message limits are judged in mode None only
+			}
 			k := fmt.Sprintf("%s/%d", f.dir, f.req)
 			if msgs[k] == nil {
 				msgs[k] = &agg{}
@@ -221,6 +232,10 @@ func c06Check(p c06Params) func(x *vrt.Exec) (string, string, string) {
 			return (maxMsg == 0 || uint32(body+200) <= maxMsg) && (maxChk == 0 || uint32(n) <= maxChk)
 		}
 		legal := fits(p.Body, chunkC2S, p.Server.MaxMsg, p.Server.MaxChk) && fits(p.Body, chunkS2C, p.Client.MaxMsg, p.Client.MaxChk)
+		if p.Secure {
+			// signature and padding change the per-chunk capacity: only the unlimited configurations are judged for delivery
+			legal = p.Server.MaxMsg == 0 && p.Server.MaxChk == 0 && p.Client.MaxMsg == 0 && p.Client.MaxChk == 0
+		}
 		out := fmt.Sprintf("legal=%v ok=%v", legal, o.reqErr == "" && o.respLen == p.Body)
 		if legal && (o.reqErr != "" || o.respLen != p.Body) {
 			return out, tag + "/message-within-all-advertised-limits-not-delivered", detail
@@ -233,7 +248,7 @@ func c06Scenarios(thorough bool) []driver.Scenario {
 	var out []driver.Scenario
 	add := func(p c06Params) {
 		out = append(out, driver.Scenario{
-			Name:   fmt.Sprintf("c06/client=%v/server=%v/body=%d", p.Client, p.Server, p.Body),
+			Name:   fmt.Sprintf("c06/client=%v/server=%v/body=%d/secure=%v", p.Client, p.Server, p.Body, p.Secure),
 			Params: p, Cfg: vrt.Config{Horizon: int64(time.Minute), MaxSteps: 2000000},
 			Body: c06Body(p), Check: c06Check(p), Sequential: true,
 		})
@@ -266,6 +281,19 @@ func c06Scenarios(thorough bool) []driver.Scenario {
 						}
 					}
 				}
+			}
+		}
+	}
+	// SignAndEncrypt: full chunks are whole cipher blocks, so with a buffer that is a multiple of 16 a chunk fills
+	// the advertised receive buffer exactly
+	sbufs := []uint32{8192, 65536}
+	if thorough {
+		sbufs = []uint32{8192, 8208, 16384, 65535, 65536}
+	}
+	for _, cb := range sbufs {
+		for _, sb := range sbufs {
+			for _, b := range []int{100, 20000, 140000} {
+				add(c06Params{Client: c06Limits{cb, cb, 0, 0}, Server: c06Limits{sb, sb, 0, 0}, Body: b, Secure: true})
 			}
 		}
 	}
